@@ -1822,6 +1822,9 @@ package go_clipper2
 //@   requires e != nil && e.localMin != nil && (e.nextInAEL != nil ==> e.nextInAEL.localMin != nil)
 //@   ensures [only-hot-closed-sloped-neighbours] (e.nextInAEL == nil || old(e.outrec) == nil || old(e.nextInAEL.outrec) == nil || e.localMin.IsOpen || e.nextInAEL.localMin.IsOpen || old(e.bot.Y == e.top.Y) || old(e.nextInAEL.bot.Y == e.nextInAEL.top.Y)) ==> (e.joinWith == old(e.joinWith) && e.outrec == old(e.outrec) && (e.nextInAEL != nil ==> (e.nextInAEL.joinWith == old(e.nextInAEL.joinWith) && e.nextInAEL.outrec == old(e.nextInAEL.outrec))))
 //@   ensures [at-a-crossing-a-join-needs-the-point-on-the-neighbours-line] (checkCurrX && old(e.nextInAEL) != nil && PerpendicDistFromLineSqr64(pt, old(e.nextInAEL.bot), old(e.nextInAEL.top)) > 0.25) ==> (e.joinWith == old(e.joinWith) && old(e.nextInAEL).joinWith == old(e.nextInAEL.joinWith) && e.outrec == old(e.outrec))
+//@   ensures [once-none-of-the-five-tests-rejects-the-pair-the-join-is-recorded-on-both-edges] returnIndex >= 5 ==> (e.joinWith == JoinRight && old(e.nextInAEL) != nil && old(e.nextInAEL).joinWith == JoinLeft)
+//@   assert after call:addOutPt#0 [two-different-rings-are-linked-at-the-join-point-itself] arg0 == e && arg1 == pt
+//@   assert after call:addOutPt#1 [two-different-rings-are-linked-at-the-join-point-itself] arg0 == next && arg1 == pt && next == old(e.nextInAEL)
 
 //@ func clipperBase.checkJoinLeft
 //@   props C03 C09 C02 C01 C04 C05 C08 C10 C17 C19
@@ -1830,6 +1833,9 @@ package go_clipper2
 //@   requires e != nil && e.localMin != nil && (e.prevInAEL != nil ==> e.prevInAEL.localMin != nil)
 //@   ensures [only-hot-closed-sloped-neighbours] (e.prevInAEL == nil || old(e.outrec) == nil || old(e.prevInAEL.outrec) == nil || e.localMin.IsOpen || e.prevInAEL.localMin.IsOpen || old(e.bot.Y == e.top.Y) || old(e.prevInAEL.bot.Y == e.prevInAEL.top.Y)) ==> (e.joinWith == old(e.joinWith) && e.outrec == old(e.outrec) && (e.prevInAEL != nil ==> (e.prevInAEL.joinWith == old(e.prevInAEL.joinWith) && e.prevInAEL.outrec == old(e.prevInAEL.outrec))))
 //@   ensures [at-a-crossing-a-join-needs-the-point-on-the-neighbours-line] (checkCurrX && old(e.prevInAEL) != nil && PerpendicDistFromLineSqr64(pt, old(e.prevInAEL.bot), old(e.prevInAEL.top)) > 0.25) ==> (e.joinWith == old(e.joinWith) && old(e.prevInAEL).joinWith == old(e.prevInAEL.joinWith) && e.outrec == old(e.outrec))
+//@   ensures [once-none-of-the-five-tests-rejects-the-pair-the-join-is-recorded-on-both-edges] returnIndex >= 5 ==> (e.joinWith == JoinLeft && old(e.prevInAEL) != nil && old(e.prevInAEL).joinWith == JoinRight)
+//@   assert after call:addOutPt#0 [two-different-rings-are-linked-at-the-join-point-itself] arg0 == e && arg1 == pt
+//@   assert after call:addOutPt#1 [two-different-rings-are-linked-at-the-join-point-itself] arg0 == prev && arg1 == pt && prev == old(e.prevInAEL)
 
 //@ func clipperBase.addLocalMinPoly
 //@   props C02 C04 C09 C01 C05 C08 C10 C17 C19
